@@ -515,10 +515,14 @@ func (fr *Frame) applyContract(ct *Contract, callee *ssa.Function, sig *types.Si
 		}
 	}
 	// callbacks declared by "calls <param>"
+	lambdas := map[string]*Lambda{}
 	for _, cb := range ct.Calls {
 		for i, n := range names {
 			if n == cb.Names[0] {
-				fr.runCallbackWith(args[i], pc, st, pos, cb.Expr, env)
+				lam := fr.runCallbackWith(args[i], pc, st, pos, cb.Expr, env)
+				if cb.Handle != "" && lam != nil {
+					lambdas[cb.Handle] = lam
+				}
 			}
 		}
 	}
@@ -563,7 +567,22 @@ func (fr *Frame) applyContract(ct *Contract, callee *ssa.Function, sig *types.Si
 	post := x.envForFunc(callee, sig, names, args, st, pre)
 	post.pkg = env.pkg
 	post.bindResults(rnames, vals)
+	for k, lam := range lambdas {
+		post.vars[k] = SV{Lam: lam}
+	}
 	for _, en := range ct.Ensures {
+		if strings.Contains(en.Src, "(") && len(ct.Calls) > 0 {
+			// ensures that mention a callback predicate are skipped when it could not be captured
+			skip := false
+			for _, cb := range ct.Calls {
+				if cb.Handle != "" && lambdas[cb.Handle] == nil && strings.Contains(en.Src, cb.Handle+"(") {
+					skip = true
+				}
+			}
+			if skip {
+				continue
+			}
+		}
 		var t *Term
 		if err := safeEval(func() { t = post.Bool(en.Expr) }); err != nil {
 			panic(stopExec{fmt.Sprintf("contract %s: ensures %q: %v", cname, en.Src, err)})
@@ -992,14 +1011,16 @@ func (fr *Frame) runCallback(fv Value, pc *Term, st *State, pos string) {
 
 // runCallbackWith: cond (optional) constrains the callback's arguments,
 // named arg0, arg1, ... and evaluated in the callee contract's environment.
-func (fr *Frame) runCallbackWith(fv Value, pc *Term, st *State, pos string, cond *SNode, cenv *Env) {
+// It returns the callback's result as a function of its arguments when the
+// callback has a single scalar result.
+func (fr *Frame) runCallbackWith(fv Value, pc *Term, st *State, pos string, cond *SNode, cenv *Env) *Lambda {
 	x := fr.x
 	if len(fv.L) != 1 {
-		return
+		return nil
 	}
 	cl, ok := x.funcTab[fv.L[0]]
 	if !ok || !inRepo(cl.Fn) || len(cl.Fn.Blocks) == 0 {
-		return
+		return nil
 	}
 	ms := x.W.fnModSet(cl.Fn)
 	havoc := func() {
@@ -1019,12 +1040,14 @@ func (fr *Frame) runCallbackWith(fv Value, pc *Term, st *State, pos string, cond
 		}
 	}
 	havoc()
-	if x.W.ContractFor(cl.Fn) != nil {
-		// verified separately against its own contract
-		return
+	if cct := x.W.ContractFor(cl.Fn); cct != nil {
+		// verified separately against its own contract; its preconditions
+		// must hold whenever the external function may call it
+		fr.checkClosureRequires(cct, cl, pc, st, pos)
+		return nil
 	}
 	if fr.depth >= maxInlineDepth || x.onStack(cl.Fn) {
-		return
+		return nil
 	}
 	var params []Value
 	for _, p := range cl.Fn.Params {
@@ -1048,8 +1071,63 @@ func (fr *Frame) runCallbackWith(fv Value, pc *Term, st *State, pos string, cond
 	nf := x.newFrame(cl.Fn, params, cl.Bind, fr.depth+1)
 	nf.inDefer = fr.inDefer
 	s1 := st.clone()
-	nf.run(pc, s1)
+	_, _, rvals := nf.run(pc, s1)
 	havoc()
+	if len(rvals) == 1 && len(rvals[0].L) == 1 {
+		lam := &Lambda{Result: rvals[0].L[0]}
+		for _, p := range params {
+			if len(p.L) != 1 {
+				return nil
+			}
+			lam.Params = append(lam.Params, p.L[0])
+		}
+		return lam
+	}
+	return nil
+}
+
+// checkClosureRequires: a closure with its own contract is handed to code
+// that will call it: the closure's requires (over its captured variables)
+// must hold now.
+func (fr *Frame) checkClosureRequires(cct *Contract, cl *FuncVal, pc *Term, st *State, pos string) {
+	x := fr.x
+	if !x.mode.Functional || len(cct.Requires) == 0 {
+		return
+	}
+	env := x.envForFunc(cl.Fn, cl.Fn.Signature, nil, nil, st, nil)
+	for i, fv := range cl.Fn.FreeVars {
+		if i >= len(cl.Bind) {
+			break
+		}
+		if p, ok := fv.Type().Underlying().(*types.Pointer); ok {
+			l := x.locOf(cl.Bind[i].One(), p.Elem())
+			if l.Kind == LCell {
+				if v, ok := st.cells[l.Cell]; ok {
+					env.vars[fv.Name()] = svValue(v)
+				}
+				continue
+			}
+		}
+		env.vars[fv.Name()] = svValue(cl.Bind[i])
+	}
+	for _, p := range cl.Fn.Params {
+		env.vars[p.Name()] = svValue(x.freshValue(p.Type(), "cbp_"+p.Name()))
+	}
+	for _, rq := range cct.Requires {
+		if !x.active(rq) {
+			continue
+		}
+		var t *Term
+		if err := safeEval(func() { t = env.Bool(rq.Expr) }); err != nil {
+			panic(stopExec{fmt.Sprintf("closure %s: requires %q: %v", cct.Func, rq.Src, err)})
+		}
+		lbl := rq.Label
+		if lbl == "" {
+			lbl = truncate(rq.Src, 40)
+		}
+		o := x.oblige("requires", cct.Func+":"+lbl, pos, pc, t)
+		o.Extra = map[string]string{"requires": rq.Src, "what": "precondition of a callback at the point it is handed out"}
+	}
 }
 
 // ---- frame checks ---------------------------------------------------------
